@@ -1,5 +1,7 @@
 """C16 — resampling and smoothing keep the neuron's shape."""
 import math
+import random
+import sys
 import warnings
 from fractions import Fraction
 
@@ -57,6 +59,40 @@ def along(pts, lens, r, s):
     return [float(c) for c in pts[-1]], float(r[-1])
 
 
+EPS32 = 2.0 ** -23      # float32 machine epsilon: coordinates are stored in float32, a stored value is off by at most EPS32/2 * |value|
+
+# INPUT FAMILY "coordinates at offsets 10^k": the same lattice shapes far away from the origin (whole-brain / nanometre coordinate systems)
+# on a lattice of unit 2^-j.  Only (unit, k) pairs for which every lattice point near 9·10^k is a float32 number, so the inputs stay exact.
+OFFSET_GRID = [(1.0, 2), (1.0, 3), (1.0, 4), (1.0, 5), (1.0, 6), (0.25, 3), (0.25, 4), (0.25, 5), (0.0625, 2), (0.0625, 4), (0.0625, 5)]
+
+
+def draw_offset(rng):
+    """(unit, k, offset vector): every axis far out (±m·10^k), or — one time in four — only some of the axes"""
+    unit, k = rng.choice(OFFSET_GRID)
+    off = [rng.choice([-1, 1]) * rng.randint(1, 9) * 10.0 ** k for _ in range(3)]
+    if rng.random() < 0.25:
+        off[rng.randrange(3)] = 0.0
+    return unit, k, off
+
+
+def short(xs, n=24):
+    xs = list(xs)
+    return str(xs) if len(xs) <= n else f"{str(xs[:n])[:-1]}, … ({len(xs)} entries)]"
+
+
+def guarded(fn):
+    """an oracle never raises: an output it cannot read (None, wrong sizes, wrong types) is a finding, not a crash of the check"""
+    def oracle(self, case, res):
+        try:
+            if not isinstance(res, dict):
+                return [("malformed-output", f"the implementation's result is {type(res).__name__}")]
+            return fn(self, case, res)
+        except Exception as e:  # noqa: BLE001
+            return [("malformed-output", f"the output cannot be judged ({type(e).__name__}: {str(e)[:200]})")]
+    oracle.__doc__ = fn.__doc__
+    return oracle
+
+
 def rats(xs):
     return ",".join(str(Fraction(x)) for x in xs) if len(xs) else "_"
 
@@ -96,6 +132,23 @@ class BranchSuite(Suite):
         for kind, extra in (("iso", {"d": 0.4}), ("iso-noadj", {"d": 0.4}), ("iso", {"d": 1.0}), ("iso-noadj", {"d": 1.0})):
             out.append({"class": kind + "/named", "kind": kind, "pts": [[0, 0, 0], [2, 0, 0]], "lens": [2], "r": [1.0, 2.0], **extra})
             out.append({"class": kind + "/zero-length", "kind": kind, "pts": [[1, 1, 1], [1, 1, 1]], "lens": [0], "r": [1.0, 1.0], **extra})
+        # the same branches far away from the origin, on lattices of unit 1, 1/4, 1/16 (guaranteed share: every kind, several magnitudes)
+        kinds = ["iso", "iso", "iso-noadj", "lin", "smooth"]
+        for q in range(60 if big else 20):
+            kind = kinds[q % len(kinds)]
+            unit, k10, off = draw_offset(rng)
+            pts, lens, r = polyline(rng, rng.choice([2, 3, 4, 6, 10]), zero_ok=rng.random() < 0.3)
+            c = {"class": f"{kind}/offset-1e{k10}", "kind": kind, "pts": [[off[i] + unit * p[i] for i in range(3)] for p in pts],
+                 "lens": [unit * L for L in lens], "r": r, "unit": unit}
+            if kind.startswith("iso"):
+                c["d"] = unit * rng.choice([0.25, 0.5, 0.75, 1.0, 1.5, 2.0, 3.0])
+            elif kind == "lin":
+                c["n"] = rng.choice([2, 3, 5, 8])
+            else:
+                c["k"] = rng.choice([3, 5, 7, 4])
+            if sum(lens) == 0:
+                c["class"] += "/zero-length"
+            out.append(c)
         return out
 
     def run(self, case):
@@ -145,6 +198,7 @@ class BranchSuite(Suite):
             return [(f"lin {base} n={case['n']}", Expect(close(want), f"impl: {want}"))]
         return [(f"iso {base} d={Fraction(case['d'])} adj={int(k == 'iso')}", Expect(close(want), f"impl: {want}"))]
 
+    @guarded
     def oracle(self, case, res):
         k = case["kind"]
         pts, lens, r = case["pts"], case["lens"], case["r"]
@@ -154,7 +208,10 @@ class BranchSuite(Suite):
             return [(key, f"{k} on a polyline with segment lengths {lens} raised {res['exc']}: {res.get('msg')}")]
         out = []
         got = res["xyzr"]
-        close = lambda a, b: all(abs(x - y) <= 2e-5 * max(1.0, abs(y)) for x, y in zip(a, b))
+        if any(len(g) != 4 for g in got):
+            return [("malformed-output", f"rows of the resulting branch are not (x, y, z, r): {short(got, 3)}")]
+        # a position is right when it is the stated point up to what float32 (the storage type of coordinates) can represent there
+        close = lambda a, b: len(a) == len(b) and all(abs(x - y) <= 2e-5 + 4 * EPS32 * abs(y) for x, y in zip(a, b))
         if k == "smooth":
             if len(got) != len(pts):
                 return [("smooth-count", f"{len(got)} nodes after smoothing {len(pts)}")]
@@ -227,6 +284,92 @@ def lattice_tree(rng, pids):
             used.add(q); xyz[c] = q; st.append(c)
     return {"n": nn, "pids": list(pids), "types": [1] + [3] * (nn - 1), "xyz": [[float(c) for c in xyz[i]] for i in range(nn)],
             "r": [rng.randint(2, 8) / 4 for _ in range(nn)]}
+
+
+def deep_tree(desc):
+    """INPUT FAMILY "nesting beyond the recursion limit": the lattice tree described by `desc` = {kind, levels, seed, numbering}, built
+    deterministically (the case stores the description only).  `comb`: a trunk that gives off a collateral (one or two segments, ending
+    in a tip) at each of `levels` consecutive branch points, so the furcations are nested `levels` deep; `chain`: an unbranched path
+    of at least `levels` nodes.  Integer edge lengths, pairwise distinct positions."""
+    rng = random.Random(f"deep/{desc['kind']}/{desc['levels']}/{desc['seed']}")
+    pids, xyz = [-1], [(0, 0, 0)]
+    trunk, x = 0, 0
+    for _ in range(rng.randint(0, 2)):              # any root type: the first branch point is the root itself or lies on a stem
+        x += rng.randint(1, 4)
+        pids.append(trunk); xyz.append((x, 0, 0)); trunk = len(pids) - 1
+    for _lvl in range(desc["levels"]):
+        if desc["kind"] == "comb":
+            ax = rng.choice([1, 2])
+            q = [x, 0, 0]; q[ax] = rng.choice([-1, 1]) * rng.randint(1, 3)
+            pids.append(trunk); xyz.append(tuple(q))
+            if rng.random() < 0.4:
+                q2 = list(q); q2[3 - ax] = rng.choice([-1, 1]) * rng.randint(1, 3)
+                pids.append(len(pids) - 1); xyz.append(tuple(q2))
+        for _ in range(rng.randint(1, 2)):
+            x += rng.randint(1, 4)
+            pids.append(trunk); xyz.append((x, 0, 0)); trunk = len(pids) - 1
+    n = len(pids)
+    r = [rng.randint(2, 8) / 4 for _ in range(n)]
+    if desc.get("numbering") == "root0":             # numbering must not matter: parents may follow their children
+        perm = list(range(1, n)); rng.shuffle(perm); perm = [0] + perm
+        np_, nx, nr = [0] * n, [None] * n, [None] * n
+        for old, pp in enumerate(pids):
+            np_[perm[old]] = -1 if pp == -1 else perm[pp]; nx[perm[old]] = xyz[old]; nr[perm[old]] = r[old]
+        pids, xyz, r = np_, nx, nr
+    return {"n": n, "pids": pids, "types": [1] + [3] * (n - 1), "xyz": [[float(c) for c in q] for q in xyz], "r": r}
+
+
+def deep_descs(rng, big, n_beyond, n_below):
+    """descriptions of deep trees: `n_beyond` nested / chained deeper than the interpreter's recursion limit (whatever it is in this
+    process), `n_below` well below it"""
+    lim = sys.getrecursionlimit()
+    out = []
+    for q in range(n_beyond + n_below):
+        beyond = q < n_beyond
+        levels = lim + rng.randint(lim // 20, lim // 2 if not big else 2 * lim) if beyond else rng.randint(lim // 10, lim // 2)
+        kind = "comb" if q % 3 != 2 else "chain"
+        out.append({"kind": kind, "levels": levels, "seed": rng.randrange(10 ** 6), "numbering": rng.choice(["sorted", "root0"]),
+                    "class": f"deep-{kind}/" + ("beyond-recursion-limit" if beyond else "below-recursion-limit")})
+    return out
+
+
+def well_formed(ids, pids):
+    """gen.well_formed (ids = positions, node 0 the only root, parents exist, every node reaches the root) in linear time, for deep tables"""
+    n = len(ids)
+    if list(ids) != list(range(n)):
+        return "ids are not 0..n-1"
+    if n == 0:
+        return "empty"
+    if len(pids) != n:
+        return f"{len(pids)} parents for {n} ids"
+    if pids[0] != -1:
+        return "node 0 is not a root"
+    for i in range(1, n):
+        if not (isinstance(pids[i], int) and 0 <= pids[i] < n):
+            return f"parent of {i} is {pids[i]}"
+    state = [0] * n          # 0 unseen, 1 reaches the root, 2 on the path being followed
+    state[0] = 1
+    for i in range(n):
+        path, j = [], i
+        while state[j] == 0:
+            state[j] = 2; path.append(j); j = pids[j]
+        if state[j] != 1:
+            return f"node {i} does not reach the root"
+        for v in path:
+            state[v] = 1
+    return None
+
+
+def case_tree(case):
+    """the tree description of a case: stored, or expanded from the description of a deep tree"""
+    return case["tree"] if case.get("tree") is not None else deep_tree(case["deep"])
+
+
+def far_tree(t, unit, off):
+    """the lattice tree `t` on a lattice of unit `unit` at offset `off`"""
+    t2 = dict(t)
+    t2["xyz"] = [[off[i] + unit * p[i] for i in range(3)] for p in t["xyz"]]
+    return t2
 
 
 REUSE_SHAPES = ["chain", "stem", "star", "caterpillar", "binary", "random", "highdeg"]   # gen.parents_sorted gives exactly n nodes for these
@@ -389,12 +532,28 @@ class TreeSuite(Suite):
                     warm = rng.choice([None, 3.0, 2.0]) if nn >= 3 else None
                     out.append({"class": f"{op[0]}/{shape}" + ("/again" if warm else ""), "tree": t, "op": op[0], "arg": op[1], "warm": warm})
         out += reuse_sessions(rng, big)
+        # neurons far away from the origin (offsets ±m·10^k, lattice units 1, 1/4, 1/16): guaranteed share, every shape family in turn
+        q = 0
+        while q < (36 if big else 14):
+            shape = REUSE_SHAPES[q % len(REUSE_SHAPES)]
+            t = lattice_tree(rng, gen.renumber_root0(rng, gen.parents_sorted(rng, rng.choice([4, 6, 9, 14] + ([30] if big else [])), shape)))
+            unit, k10, off = draw_offset(rng)
+            if t is None:
+                continue
+            q += 1
+            op = ("smooth", rng.choice([3, 5])) if q % 5 == 0 else ("iso", unit * rng.choice([0.4, 0.5, 1.0, 1.5, 2.5]))
+            out.append({"class": f"{op[0]}/offset-1e{k10}/{shape}", "tree": far_tree(t, unit, off), "unit": unit, "op": op[0], "arg": op[1], "warm": None})
+        # furcations nested (or a path running) deeper than the interpreter's recursion limit; the tree is built from its description
+        for j, dsc in enumerate(deep_descs(rng, big, 3 if not big else 6, 1 if not big else 3)):
+            cls = dsc.pop("class")
+            op = ("smooth", rng.choice([3, 5])) if j % 3 == 1 else ("iso", rng.choice([0.5, 1.0, 2.5, 40.0]))
+            out.append({"class": f"{op[0]}/{cls}", "deep": dsc, "op": op[0], "arg": op[1], "warm": None, "big": True})
         return out
 
     def run(self, case):
         from swcgeom.transforms import IsometricResampler, TreeSmoother
 
-        session = list(case.get("prior") or []) + [case["tree"]]
+        session = list(case.get("prior") or []) + [case_tree(case)]
         sources = case.get("sources") or [""] * len(session)
         trees = [gen.make_tree(td, source=src) for td, src in zip(session, sources)]
         before = [{k: v.copy() for k, v in t.ndata.items()} for t in trees]
@@ -417,25 +576,35 @@ class TreeSuite(Suite):
             res["prior"] = results[:-1]
         return res
 
+    @guarded
     def oracle(self, case, res):
-        t = case["tree"]
+        t = case_tree(case)
         if "exc" in res:
-            return [(f"tree-{case['op']}-raises", f"{case['op']}({case['arg']}) on pids={t['pids']} raised {res['exc']}: {res.get('msg')}")]
+            return [(f"tree-{case['op']}-raises", f"{case['op']}({case['arg']}) on pids={short(t['pids'])} raised {res['exc']}: {res.get('msg')}")]
         # every call of a session is held to the property: the trees the transform object met before, then the tree itself
         session = list(zip(case.get("prior") or [], res.get("prior") or [])) + [(t, res)]
         out = []
         for q, (tq, rq) in enumerate(session):
             for key, msg in self.verdict(case, tq, rq):
                 if len(session) > 1:
-                    msg = f"call {q + 1} of {len(session)} of one {case['op']} transform object (pids={tq['pids']}): {msg}"
+                    msg = f"call {q + 1} of {len(session)} of one {case['op']} transform object (pids={short(tq['pids'])}): {msg}"
                 out.append((key, msg))
         return out[:3]
 
     def verdict(self, case, t, res):
         out = []
-        if gen.well_formed(res["id"], res["pid"]) is not None:
-            return [("resample-not-wellformed", gen.well_formed(res["id"], res["pid"]))]
-        close = lambda a, b: all(abs(x - y) <= 1e-4 for x, y in zip(a, b))
+        n_out = len(res["id"])
+        if not (len(res["pid"]) == len(res["xyz"]) == len(res["r"]) == n_out) or any(len(p) != 3 for p in res["xyz"]):
+            return [("malformed-output", f"columns of the result have {n_out} / {len(res['pid'])} / {len(res['xyz'])} / {len(res['r'])} entries")]
+        wf = well_formed(res["id"], res["pid"])
+        if wf is not None:
+            return [("resample-not-wellformed", wf)]
+        # float32 is the storage type of coordinates: a stored coordinate is the stated one up to EPS32/2 * |coordinate|; `ftol` bounds
+        # what that does to the distance of two stored points
+        mag = max([abs(c) for p in t["xyz"] for c in p] + [1.0])
+        ftol = 4 * EPS32 * mag
+        unit = case.get("unit", 1.0)
+        close = lambda a, b, tol=1e-4 + EPS32 * mag: all(abs(x - y) <= tol for x, y in zip(a, b))
         if case["op"] == "smooth":
             if res["pid"] != t["pids"]:
                 out.append(("smooth-connectivity", "TreeSmoother changed the parent relation / node count"))
@@ -450,61 +619,91 @@ class TreeSuite(Suite):
         # iso: critical nodes keep position and connectivity
         kids_in, cr_in = crit(t["pids"])
         kids_out, cr_out = crit(res["pid"])
+        set_in, set_out = set(cr_in), set(cr_out)
+        rnd = lambda p: tuple(round(c, 4) for c in p)
         pos_in = sorted(tuple(t["xyz"][i]) for i in cr_in)
-        pos_out = sorted(tuple(round(c, 4) for c in res["xyz"][i]) for i in cr_out)
-        if pos_in != [tuple(round(c, 4) for c in p) for p in pos_in] or pos_out != pos_in:
-            out.append(("resample-critical-nodes", f"root/furcations/tips at {pos_in} became {pos_out} (pids={t['pids']}, d={case['arg']})"))
+        pos_out = sorted(rnd(res["xyz"][i]) for i in cr_out)
+        if pos_in != [rnd(p) for p in pos_in] or pos_out != pos_in:
+            out.append(("resample-critical-nodes", f"root/furcations/tips at {short(pos_in, 12)} became {short(pos_out, 12)} (pids={short(t['pids'])}, d={case['arg']})"))
         else:
             def up(pids, crset, i):
                 j = pids[i]
                 while j not in crset:
                     j = pids[j]
                 return j
-            ein = sorted((tuple(t["xyz"][i]), tuple(t["xyz"][up(t["pids"], set(cr_in), i)])) for i in cr_in if i != 0)
-            eout = sorted((tuple(round(c, 4) for c in res["xyz"][i]), tuple(round(c, 4) for c in res["xyz"][up(res["pid"], set(cr_out), i)])) for i in cr_out if i != 0)
+            ein = sorted((tuple(t["xyz"][i]), tuple(t["xyz"][up(t["pids"], set_in, i)])) for i in cr_in if i != 0)
+            eout = sorted((rnd(res["xyz"][i]), rnd(res["xyz"][up(res["pid"], set_out, i)])) for i in cr_out if i != 0)
             if ein != eout:
                 out.append(("resample-connectivity", "the branch tree of the result differs from the input's"))
-            # steps along each branch: equal and no longer than the spacing
+            # the original branches, by the position of the key node they end at (sister branches may end at one point)
+            ends_at = {}
+            for x in cr_in:
+                if x != 0:
+                    ends_at.setdefault(tuple(t["xyz"][x]), []).append(x)
             d = case["arg"]
+            found = False
             for i in cr_out:
-                if i == 0:
+                if i == 0 or found:
                     continue
                 chain = [i]
                 j = res["pid"][i]
                 while True:
                     chain.append(j)
-                    if j in set(cr_out):
+                    if j in set_out:
                         break
                     j = res["pid"][j]
+                chain.reverse()                       # from the key node the branch leaves to the key node it ends at
                 gaps = [math.dist(res["xyz"][a], res["xyz"][b]) for a, b in zip(chain, chain[1:])]
-                # the original branch is an axis-aligned lattice path; along it gaps are arc-length steps only when straight,
-                # so compare the SUM of per-branch step counts instead: n-1 steps of L/(n-1)
-                Lb = None
-                a0, b0 = chain[-1], chain[0]
-                # arc length of the original branch between these two critical nodes
-                ia = next(x for x in cr_in if tuple(t["xyz"][x]) == tuple(round(c, 4) for c in res["xyz"][b0]))
-                Lb, x = 0.0, ia
-                while True:
-                    p = t["pids"][x]
-                    Lb += math.dist(t["xyz"][x], t["xyz"][p]); x = p
-                    if x in set(cr_in):
-                        break
-                n_expected = int(math.ceil(Lb / d)) + 1
-                irrational = case["class"].startswith("iso/float") or abs(Lb - round(Lb)) > 1e-9   # lattice branches have integer lengths
-                if irrational and abs(Lb / d - round(Lb / d)) < 1e-3:
-                    continue      # an irrational branch length that is a multiple of the spacing up to rounding: either count is right
-                if len(chain) != n_expected:
-                    out.append(("resample-branch-count", f"a branch of length {Lb} resampled at {d} has {len(chain)} nodes, expected ceil(L/d)+1 = {n_expected}")); break
-                if max(gaps) > Lb / (n_expected - 1) + 1e-4:
-                    out.append(("resample-step", f"a branch of length {Lb} resampled at {d}: gaps {['%.3f' % g for g in gaps]} exceed the equal step {Lb / (n_expected - 1):.4f}")); break
-        if res["length"] > res["length_in"] * (1 + 1e-5) + 1e-5:
+                why = None
+                for ia in ends_at.get(rnd(res["xyz"][i]), []):
+                    # the original branch ending at this key node: its polyline, radii and arc length
+                    orig = [ia]
+                    while True:
+                        orig.append(t["pids"][orig[-1]])
+                        if orig[-1] in set_in:
+                            break
+                    orig.reverse()
+                    pts = [t["xyz"][x] for x in orig]
+                    if rnd(pts[0]) != rnd(res["xyz"][chain[0]]):
+                        why = why or ("resample-connectivity", "a branch of the result leaves another key node than the original branch ending there")
+                        continue
+                    lens = [math.dist(a, b) for a, b in zip(pts, pts[1:])]
+                    Lb = sum(lens)
+                    n_expected = int(math.ceil(Lb / d)) + 1
+                    irrational = case["class"].startswith("iso/float") or abs(Lb / unit - round(Lb / unit)) > 1e-9   # lattice branches have lengths that are multiples of the unit
+                    if irrational and abs(Lb / d - round(Lb / d)) < 1e-3:
+                        why = None; break      # an irrational branch length that is a multiple of the spacing up to rounding: either count is right
+                    # steps along each branch: equal and no longer than the spacing — n-1 steps of L/(n-1)
+                    if len(chain) != n_expected:
+                        why = why or ("resample-branch-count", f"a branch of length {Lb} resampled at {d} has {len(chain)} nodes, expected ceil(L/d)+1 = {n_expected}")
+                        continue
+                    if max(gaps) > Lb / (n_expected - 1) + 1e-4 + ftol:
+                        why = why or ("resample-step", f"a branch of length {Lb} resampled at {d}: gaps {['%.3f' % g for g in gaps[:12]]} exceed the equal step {Lb / (n_expected - 1):.4f}")
+                        continue
+                    # every other node lies on the original polyline at its equal arc-length step, with the linearly interpolated radius
+                    bad = None
+                    rr_in = [t["r"][x] for x in orig]
+                    for q in range(1, len(chain) - 1):
+                        sq = q * Lb / (n_expected - 1)
+                        pq, rq = along(pts, lens, rr_in, sq)
+                        if not close(res["xyz"][chain[q]], pq):
+                            bad = ("resample-off-polyline", f"node {q} of a resampled branch of length {Lb} (d={d}) is at {res['xyz'][chain[q]]}, the original polyline at arc length {sq:.4f} is {pq}"); break
+                        if abs(res["r"][chain[q]] - rq) > 1e-4 * max(1.0, abs(rq)):
+                            bad = ("resample-radius", f"node {q} of a resampled branch of length {Lb} (d={d}) has radius {res['r'][chain[q]]}, linear interpolation along the branch gives {rq}"); break
+                    if bad is None:
+                        why = None; break
+                    why = why or bad
+                if why:
+                    out.append(why); found = True
+        # total length never grows (each of the stored nodes may be off by float32 rounding of its coordinates)
+        if res["length"] > res["length_in"] * (1 + 1e-5) + 1e-5 + n_out * ftol:
             out.append(("resample-length-grows", f"total length grew from {res['length_in']} to {res['length']}"))
         if not res["input_unchanged"]:
             out.append(("resample-mutates-input", "the tree handed in was modified"))
         return out[:3]
 
     def nontrivial(self, case, res):
-        return case["tree"]["n"] >= 3
+        return "deep" in case or case["tree"]["n"] >= 3
 
 
 class PairSuite(Suite):
@@ -559,6 +758,7 @@ class PairSuite(Suite):
         flat = sorted(v for row in d2 for v in row)
         return [("pair d=" + ";".join(",".join(str(v) for v in row) for row in d2), ",".join(f"{b}:{e}" for b, e in res["pairs"]))]
 
+    @guarded
     def oracle(self, case, res):
         if "exc" in res:
             return [("pair-raises", f"{res['exc']}: {res.get('msg')}")]
@@ -600,6 +800,11 @@ class AssembleSuite(Suite):
                     pids = gen.renumber_root0(rng, pids)
                 t = lattice_tree(rng, pids)
             out.append({"class": f"n{min(n, 40)}", "tree": t, "d": rng.choice([0.25, 0.5, 1.0, 1.5, 2.5, 7.0]), "gap": rng.random() < 0.5})
+        # branch trees nested deeper than the interpreter's recursion limit (and, for comparison, well below it); the model side is
+        # compared on the cases above, these are judged by the oracle only
+        for dsc in deep_descs(rng, big, 2 if not big else 5, 1 if not big else 2):
+            cls = dsc.pop("class")
+            out.append({"class": cls, "deep": dsc, "d": rng.choice([1.0, 2.5, 7.0, 40.0]), "gap": rng.random() < 0.5, "big": True})
         return out
 
     def run(self, case):
@@ -607,7 +812,7 @@ class AssembleSuite(Suite):
         from swcgeom.transforms.branch import BranchIsometricResampler
         from swcgeom.transforms.branch_tree import BranchTreeAssembler
 
-        x = gen.make_tree(case["tree"])
+        x = gen.make_tree(case_tree(case))
         bt = BranchTree.from_tree(x)
         rs = BranchIsometricResampler(case["d"], adjust_last_gap=case["gap"])
         bt.branches = {k: [rs(br) for br in brs] for k, brs in bt.branches.items()}
@@ -638,7 +843,7 @@ class AssembleSuite(Suite):
         return {"bt_pids": [parent[j] for j in order], "m": [m[j] for j in order], "pid": [int(v) for v in y.pid()], "id": [int(v) for v in y.id()], "g": g}
 
     def lines(self, case, res):
-        if "exc" in res:
+        if "exc" in res or case.get("big"):
             return []
         g = res["g"]
         return [(f"asm pids={gen.ints(res['bt_pids'])} m={gen.ints(res['m'])}", gen.ints(res["pid"])),
@@ -646,9 +851,10 @@ class AssembleSuite(Suite):
                 ("gasm " + " ".join(f"{k}={gen.ints(g[k])}" for k in ("ids", "pids", "bkey", "blen", "pb", "pc", "s", "e")),
                  f"{gen.ints(res['id'])} / {gen.ints(res['pid'])} / {len(g['ids'])}")]
 
+    @guarded
     def oracle(self, case, res):
         if "exc" in res:
-            return [("assemble-raises", f"{res['exc']}: {res.get('msg')} on pids={case['tree']['pids']} d={case['d']}")]
+            return [("assemble-raises", f"{res['exc']}: {res.get('msg')} on pids={short(case_tree(case)['pids'])} d={case['d']}")]
         pid = res["pid"]
         out = []
         if res["id"] != list(range(len(pid))) or pid[0] != -1 or any(not (0 <= p < k) for k, p in enumerate(pid) if k > 0):
